@@ -33,6 +33,14 @@ const vfsRoot = "/vroot"
 func (in *Interp) vfsGet() *vfsState {
 	if in.vfs == nil {
 		in.vfs = &vfsState{cwd: vfsRoot, ents: map[string]*vfsEntry{"/": {kind: vfsDir}, vfsRoot: {kind: vfsDir}}}
+		if in.cfg.VfsCwd != "" {
+			in.vfs.cwd = in.cfg.VfsCwd
+			in.vfs.mkdirAll(in.cfg.VfsCwd)
+		}
+		for p, content := range in.cfg.VfsFiles {
+			in.vfs.mkdirAll(dirPath(p))
+			in.vfs.ents[p] = &vfsEntry{kind: vfsFile, content: content}
+		}
 	}
 	return in.vfs
 }
